@@ -162,6 +162,7 @@ impl RenameFlags {
     pub const RENAME_EXCHANGE: RenameFlags = RenameFlags { bits: libc::RENAME_EXCHANGE };
     pub const RENAME_NOREPLACE: RenameFlags = RenameFlags { bits: libc::RENAME_NOREPLACE };
     pub const RENAME_WHITEOUT: RenameFlags = RenameFlags { bits: libc::RENAME_WHITEOUT };
+    pub fn from_bits_retain(b: u32) -> (r: RenameFlags) ensures r.bits == b { RenameFlags { bits: b } }
     pub fn is_empty(&self) -> (r: bool) ensures r == (self.bits == 0) { self.bits == 0 }
     pub fn bits(&self) -> (r: u32) ensures r == self.bits { self.bits }
 }
